@@ -64,6 +64,17 @@ impl BlockDecoder {
             }
             oti::FECEncodingID::RaptorQ => {
                 if let Some(SchemeSpecific::RaptorQ(scheme)) = oti.scheme_specific.as_ref() {
+                    // Limits of RFC 6330, the codec asserts on them
+                    if nb_source_symbols == 0
+                        || nb_source_symbols > 56403
+                        || scheme.symbol_alignment == 0
+                        || oti.encoding_symbol_length % scheme.symbol_alignment as u16 != 0
+                        || scheme.sub_blocks_length == 0
+                        || scheme.sub_blocks_length
+                            > oti.encoding_symbol_length / scheme.symbol_alignment as u16
+                    {
+                        return Err(FluteError::new("Invalid RaptorQ parameters"));
+                    }
                     let codec = fec::raptorq::RaptorQDecoder::new(
                         sbn,
                         nb_source_symbols as usize,
@@ -78,6 +89,11 @@ impl BlockDecoder {
             oti::FECEncodingID::Raptor => {
                 if oti.scheme_specific.is_none() {
                     return Err(FluteError::new("Raptor Scheme not found"));
+                }
+
+                // Limits of RFC 5053
+                if nb_source_symbols == 0 || nb_source_symbols > 8192 {
+                    return Err(FluteError::new("Invalid Raptor parameters"));
                 }
 
                 let codec = fec::raptor::RaptorDecoder::new(nb_source_symbols as usize, block_size);
